@@ -39,8 +39,8 @@ fn gen_value(rng: &mut Rng, safe: bool) -> J {
                 _ => json!(["arr", "real", (0..n).map(|_| real_spec(rng.range(-40, 40) as f64 / 8.0)).collect::<Vec<_>>()]),
             }
         }
-        9 => json!(["ts", [rng.range(1970, 2100), rng.range(1, 12), rng.range(1, 28), rng.range(0, 23), rng.range(0, 59), rng.range(0, 59), rng.range(0, 999) * 1000]]),
-        _ => json!(["iv", format!("{}:{:02}:{:02}", rng.range(0, 200), rng.range(0, 59), rng.range(0, 59))]),
+        9 => json!(["ts", [if rng.chance(1, 4) { *rng.pick(&[1i64, 33, 987, 999, 1000, 9999, 1583, 100]) } else { rng.range(1970, 2100) }, rng.range(1, 12), rng.range(1, 28), rng.range(0, 23), rng.range(0, 59), rng.range(0, 59), rng.range(0, 999) * 1000]]),
+        _ => json!(["iv", format!("{}{}:{:02}:{:02}", if rng.chance(1, 6) { "-" } else { "" }, *rng.pick(&[0i64, 1, 9, 10, 23, 24, 99, 100, 2400, 100000]) + rng.range(0, 3), rng.range(0, 59), rng.range(0, 59))]),
     }
 }
 
@@ -82,7 +82,7 @@ fn json_matches(v: &Value, j: &RJ) -> bool {
         (Value::Bool(b), RJ::Bool(x)) => b == x,
         (Value::String(s), RJ::Str(x)) => s == x,
         (Value::Array(_, xs), RJ::Arr(a)) => a.len() == xs.len() && xs.iter().zip(a).all(|(x, y)| json_matches(x, y)),
-        (Value::Timestamp(_), RJ::Str(x)) | (Value::Interval(_), RJ::Str(x)) => *x == v.to_string(),
+        (Value::Timestamp(_), RJ::Str(x)) | (Value::Interval(_), RJ::Str(x)) => ts_iv_text_ok(v, x),
         _ => false,
     }
 }
@@ -90,6 +90,19 @@ fn json_matches(v: &Value, j: &RJ) -> bool {
 fn show_rj(j: &RJ) -> String {
     match j { RJ::Null => "null".into(), RJ::Bool(b) => b.to_string(), RJ::Num(t) => t.clone(), RJ::Str(s) => format!("{:?}", s), RJ::Arr(a) => format!("[{}]", a.iter().map(show_rj).collect::<Vec<_>>().join(",")), RJ::Obj(o) => format!("{{{}}}", o.iter().map(|(k, v)| format!("{:?}:{}", k, show_rj(v))).collect::<Vec<_>>().join(",")) }
 }
+
+
+/// the text form of a TIMESTAMP / INTERVAL as the formats show it: `YYYY-MM-DD hh:mm:ss.mmm` (four-digit year; for years
+/// outside 0..=9999 the value's own rendering is taken) and `hh:mm:ss.mmm` (hours may exceed two digits; a negative
+/// interval is compared with the value's own rendering, its notation is not pinned down by the documentation)
+fn canonical_text(v: &Value) -> Option<String> {
+    match RV::from_engine(v) {
+        RV::Ts(us) => { let c = crate::val::parts_from_ts(us); if (0..=9999).contains(&c.y) { Some(crate::val::display_text(&RV::Ts(us))) } else { None } }
+        RV::Iv(us) if us >= 0 => Some(crate::val::display_text(&RV::Iv(us))),
+        _ => None,
+    }
+}
+fn ts_iv_text_ok(v: &Value, shown: &str) -> bool { match canonical_text(v) { Some(c) => shown == c, None => shown == v.to_string() } }
 
 fn needs_escaping(v: &Value) -> bool {
     match v {
@@ -117,6 +130,7 @@ fn text_matches(v: &Value, shown: &str) -> bool {
         Value::Int(i) => shown == i.to_string(),
         Value::Bool(b) => shown == b.to_string(),
         Value::String(s) => shown == format!("'{}'", s) || shown == *s,
+        Value::Timestamp(_) | Value::Interval(_) => ts_iv_text_ok(v, shown),
         other => shown == other.to_string(),
     }
 }
@@ -126,7 +140,7 @@ impl Monitor for C17 {
     fn rule(&self) -> &'static str {
         "kind=print: OutputPrinter::print is called with ResultRows the harness holds (1-4 results of 0-5 rows, 1-6 distinctly named columns, every value type, hostile text, 64-bit extremes, arrays of 0-200 elements) in json / csv / text with single_result on and off; kind=e2e: FileExecutor over generated input in all three formats, records paired with the engine's own rows. Oracle: #non-blank records = #rows in order; JSON keys = column names in order and values recover the row exactly; CSV one header first then one field per column; text `name: value` pairs. Non-trivial = >= 2 columns and a value needing escaping or an extreme number; distinct by case hash"
     }
-    fn assumptions(&self) -> Vec<String> { vec!["serde_json's decoder is trusted for reading printed records".into(), "timestamps / intervals in JSON are compared with the value's own text form".into()] }
+    fn assumptions(&self) -> Vec<String> { vec!["serde_json's decoder is trusted for reading printed records".into(), "timestamps with a year in 0..=9999 and non-negative intervals are compared with the harness' own rendering `YYYY-MM-DD hh:mm:ss.mmm` / `hh:mm:ss.mmm`, other timestamps / intervals with the value's own text form".into()] }
     fn sizes(&self, tier: Tier) -> Sizes { match tier { Tier::Quick => Sizes { cases: 20_000, min_nontrivial: 3_000 }, Tier::Thorough => Sizes { cases: 1_000_000, min_nontrivial: 100_000 } } }
 
     fn generate(&self, rng: &mut Rng, _tier: Tier) -> J {
